@@ -103,6 +103,10 @@ fn check_history(input: &[u8], h: &Hist) -> Result<bool, String> {
             let mut c = 0usize;
             let mut guard = 0;
             let mut hard_stop = false;
+            // inner errors that a call returning Ok has not passed on (it had made progress): the
+            // stream may drop them or report them from a later call - "surfaces to the caller" does
+            // not say from which one
+            let mut pending: Vec<ErrorKind> = vec![];
             while c < input.len() {
                 guard += 1;
                 if guard > 4 * input.len() + h.script.len() + 16 {
@@ -116,6 +120,22 @@ fn check_history(input: &[u8], h: &Hist) -> Result<bool, String> {
                     // a call without any buffer, or with only empty ones, consumes nothing and
                     // must not disturb the stream
                     let degenerate = if guard % 2 == 1 { s.write_vectored(&[]) } else { s.write_vectored(&[IoSlice::new(&[]), IoSlice::new(&[])]) };
+                    let late = match &degenerate {
+                        Err(e) => pending.iter().position(|k| *k == e.kind()),
+                        _ => None,
+                    };
+                    if let Some(i) = late {
+                        // a held-back error reported now; nothing may have been written
+                        pending.remove(i);
+                        if log.borrow().calls.len() != calls_before {
+                            return Err(ctx("write_vectored without data made inner calls".into()));
+                        }
+                        if degenerate.as_ref().err().map(|e| e.kind()) != Some(ErrorKind::Interrupted) {
+                            hard_stop = true;
+                            break;
+                        }
+                        continue;
+                    }
                     if !matches!(degenerate, Ok(0)) || log.borrow().calls.len() != calls_before {
                         return Err(ctx(format!("write_vectored without data returned {degenerate:?} and made {} inner calls", log.borrow().calls.len() - calls_before)));
                     }
@@ -133,11 +153,17 @@ fn check_history(input: &[u8], h: &Hist) -> Result<bool, String> {
                             return Err(ctx("write returned Ok(0) although the inner writer never refused anything".into()));
                         }
                         c += n;
+                        pending.extend(faults.iter().filter_map(|f| f.err()));
                     }
                     Err(e) => {
                         let kind = e.kind();
                         if !faults.iter().any(|f| *f == Err(kind)) {
-                            return Err(ctx(format!("write returned Err({kind:?}) but the inner writer returned {:?} in this call", faults)));
+                            match pending.iter().position(|k| *k == kind) {
+                                Some(i) => {
+                                    pending.remove(i);
+                                }
+                                None => return Err(ctx(format!("write returned Err({kind:?}) but the inner writer returned {:?} in this call and no error of that kind was held back earlier", faults))),
+                            }
                         }
                     }
                 }
